@@ -425,6 +425,43 @@ Proof.
 Qed.
 
 (* ------------------------------------------------------------------ *)
+(* everything the parser returns is a valid double                     *)
+
+Theorem nearest_double_valid : forall neg d e10, f64_valid (nearest_double neg d e10) = true.
+Proof.
+  intros neg d e10. unfold nearest_double.
+  destruct (d <=? 0); [reflexivity|].
+  destruct (310 <? e10); [reflexivity|].
+  destruct ((e10 <? -1100) && (3 * e10 + Z.log2 d + 1 <? -1075)); [reflexivity|].
+  apply round_ratio_valid. apply Z.pow_pos_nonneg; lia.
+Qed.
+
+Lemma parse_inf_nan_valid : forall neg s x, parse_inf_nan neg s = Some x -> f64_valid x = true.
+Proof.
+  intros neg s x H. unfold parse_inf_nan in H.
+  destruct (_ || _) in H; [inversion H; reflexivity|].
+  destruct (N_list_eqb _ _) in H; [inversion H; reflexivity|discriminate].
+Qed.
+
+Theorem parse_f64_valid : forall s x, parse_f64 s = Some x -> f64_valid x = true.
+Proof.
+  intros s x H. unfold parse_f64 in H.
+  destruct s as [|c r]; [discriminate|].
+  destruct (if Byte.eqb c "-" || Byte.eqb c "+" then r else c :: r) as [|c1 s1]; [discriminate|].
+  destruct (parse_decimal (c1 :: s1)) as [[d e10]|].
+  - inversion H. apply nearest_double_valid.
+  - eapply parse_inf_nan_valid; exact H.
+Qed.
+Print Assumptions parse_f64_valid.
+
+Example parse_f64_valid_sat : exists x, parse_f64 ["1"; "."; "5"; "e"; "3"]%byte = Some x.
+Proof. eexists. vm_compute. reflexivity. Qed.
+
+(* parse . print . parse = parse : text -> number -> text -> number is stable after one step *)
+Corollary parse_print_parse : forall s x, parse_f64 s = Some x -> parse_f64 (print_f64 x) = Some x.
+Proof. intros s x H. apply print_parse_roundtrip. eapply parse_f64_valid; exact H. Qed.
+
+(* ------------------------------------------------------------------ *)
 (* sanity examples; every expected string was produced by rustc 1.95 `format!("{}", x)` *)
 
 From Coq Require Import String.
